@@ -495,6 +495,102 @@ def pair_stream(ctx: Ctx, scratch: pathlib.Path) -> None:
 
 
 
+# --------------------------------------------------------------------------- errors found by the front end (spy)
+
+#: further defect units (module-level entities, shared references, members) — with PAIR_DEFECTS the units of front_end_error_stream
+MORE_UNITS = {
+    "dangling_subset": 'Set_{N}: Set[str] = constant_set(\n    values=["a", "b"],\n    superset_of=[Missing_{N}],\n)\n',
+    "set_unknown_item_type": 'Set_{N}: Set[Unknown_item_{N}] = constant_set(\n    values=[],\n)\n',
+    "shared_unknown_type": 'class {N}:\n    x: Unknown_shared\n\n    def __init__(self, x: Unknown_shared) -> None:\n        self.x = x\n',
+    "list_unknown": 'class {N}:\n    x: List[Unknown_in_list_{N}]\n\n    def __init__(self, x: List[Unknown_in_list_{N}]) -> None:\n        self.x = x\n',
+    "method_unknown_return": (
+        'class {N}:\n    x: int\n\n    def __init__(self, x: int) -> None:\n        self.x = x\n\n'
+        '    @implementation_specific\n    def compute(self) -> Unknown_return_{N}:\n        pass\n'
+    ),
+    "function_unknown_arg": '@verification\n@implementation_specific\ndef check_{N}(x: Unknown_arg_{N}) -> bool:\n    pass\n',
+    "enum_dup_value": 'class {N}(Enum):\n    A = "a"\n    B = "a"\n',
+    "wrong_arity": 'class {N}:\n    x: Optional[str, int]\n\n    def __init__(self, x: Optional[str, int]) -> None:\n        self.x = x\n',
+    "two_unknowns": 'class {N}:\n    x: Unknown_one\n    y: Unknown_one\n\n    def __init__(self, x: Unknown_one, y: Unknown_one) -> None:\n        self.x = x\n        self.y = y\n',
+}
+
+FRONT_END_SITES = ("parse/", "intermediate/", "run.py", "main.py", "common.py")
+
+
+def unreported_front_end_errors(res: Dict[str, Any]) -> List[Tuple[str, str, int, int]]:
+    """[(site, message, constructed, reported)]: messages of errors which the front end constructed more often than the
+    report shows them.
+
+    Written from the statement ("no error is ever silently dropped (the front end reports every independent error it
+    found)"): an ``Error`` object constructed by the front end during a run that ends with a report is something the front
+    end found; whether it is nested or top-level, its message text must be in the report once per construction."""
+    import collections
+
+    if res["exc"] is not None or res["rc"] == 0:
+        return []
+    report = _norm(res["stderr"])
+    count: Dict[str, int] = collections.Counter()
+    site_of: Dict[str, str] = {}
+    for site, message in res["errors_created"]:
+        if site.startswith(FRONT_END_SITES):
+            m = _norm(message)
+            count[m] += 1
+            site_of.setdefault(m, site)
+    out = []
+    for m, k in count.items():
+        occ = report.count(m) if m else k
+        if occ < k:
+            out.append((site_of[m], m, k, occ))
+    return out
+
+
+def front_end_error_stream(ctx: Ctx, scratch: pathlib.Path) -> None:
+    """Models with one or two defect units (classes, constant sets, functions, enumerations; the same defect twice, shared
+    dangling references) and the recorded 'unexpected' fixtures, run with the error spy."""
+    import itertools
+
+    sn = REPO / "dev/test_data/main/jsonschema/expected/primitive_types/input/snippets"
+    units = dict(PAIR_DEFECTS)
+    units.update(MORE_UNITS)
+    names = sorted(units)
+    pairs = list(itertools.product(names, names))
+    if ctx.tier == "quick" and not ctx.searching:
+        # every twin, every pair with one of the further units, a seeded sample of the rest
+        fixed = [(a, b) for a, b in pairs if a == b or a in MORE_UNITS or b in MORE_UNITS]
+        rest = [pr for pr in pairs if pr not in set(fixed)]
+        ctx.rng.shuffle(rest)
+        pairs = fixed + rest[:40]
+    p = scratch / "fe_model.py"
+
+    def judge_run(inp: Dict[str, Any], res: Dict[str, Any]) -> None:
+        for site, message, made, shown in unreported_front_end_errors(res):
+            ctx.hit("front-end-error:unreported")
+            sig = f"C03:error-dropped:front-end:{site}"
+            if sum(1 for f in ctx.failures if f["sig"] == sig) < 2:
+                ctx.fail(
+                    inp,
+                    f"the front end constructed the error {message[:160]!r} {made} time(s) in {site}, the report (exit {res['rc']}) shows it {shown} time(s)",
+                    sig,
+                )
+
+    for a, b in pairs:
+        text = "\n\n".join([units[a].format(N="First"), units[b].format(N="Second")]) + PAIR_TAIL
+        p.write_text(text)
+        res = run_cli(p, "jsonschema", sn, scratch / "fe_out", scratch, spy=True)
+        ctx.count(("front-end-errors", a, b), nontrivial=True, stream="cli-front-end-errors")
+        ctx.hit("front-end-error:rc=" + str(res["rc"]) if res["exc"] is None else "front-end-error:" + res["exc"])
+        ctx.hit("front-end-error:constructed", len(res["errors_created"]))
+        for sig, what in judge(res):
+            ctx.fail({"kind": "front-end-errors", "first": a, "second": b, "model": text}, what, sig + ":front-end-errors")
+        judge_run({"kind": "front-end-errors", "first": a, "second": b, "model": text}, res)
+    for kind, model, target, snippets in fixture_cases(2):
+        if kind == "valid":
+            continue
+        res = run_cli(model, target or "jsonschema", snippets or sn, scratch / "fe_out", scratch, spy=True)  # type: ignore
+        ctx.count(("front-end-errors-fixture", str(model), target), nontrivial=True, stream="cli-front-end-errors-fixture")
+        judge_run({"kind": "front-end-errors-fixture", "model": str(model), "target": target, "snippets": str(snippets)}, res)
+    shutil.rmtree(scratch / "fe_out", ignore_errors=True)
+
+
 # --------------------------------------------------------------------------- errors found by the generators
 
 GEN_HEADER = '''\
@@ -742,6 +838,91 @@ def history_stream(ctx: Ctx, scratch: pathlib.Path) -> None:
 
 
 
+ARGUMENT_KINDS = [
+    "file", "dir", "fifo", "socket", "devnull", "dangling-symlink", "symlink-to-dir", "symlink-to-file", "below-file",
+    "missing", "nested-missing", "symlink-loop", "unsearchable-parent",
+]
+
+
+def _make_path(base: pathlib.Path, kind: str) -> pathlib.Path:
+    """A path of the given kind below ``base`` (a fresh directory)."""
+    import socket
+
+    p = base / "arg"
+    if kind == "file":
+        p.write_text("x")
+    elif kind == "dir":
+        p.mkdir()
+    elif kind == "fifo":
+        os.mkfifo(p)
+    elif kind == "socket":
+        s = socket.socket(socket.AF_UNIX)
+        s.bind(str(p))
+        s.close()
+    elif kind == "devnull":
+        return pathlib.Path("/dev/null")
+    elif kind == "dangling-symlink":
+        p.symlink_to(base / "nowhere")
+    elif kind == "symlink-to-dir":
+        (base / "realdir").mkdir()
+        p.symlink_to(base / "realdir")
+    elif kind == "symlink-to-file":
+        (base / "realfile").write_text("x")
+        p.symlink_to(base / "realfile")
+    elif kind == "below-file":
+        (base / "afile").write_text("x")
+        return base / "afile" / "sub"
+    elif kind == "nested-missing":
+        return base / "a" / "b" / "c"
+    elif kind == "symlink-loop":
+        p.symlink_to(p)
+    elif kind == "unsearchable-parent":
+        (base / "locked").mkdir()
+        return base / "locked" / "sub"
+    return p
+
+
+def argument_stream(ctx: Ctx, scratch: pathlib.Path) -> None:
+    """Every program argument pointing at every kind of file-system entry: the run ends with exit 0 and no stderr, or
+    non-zero with a report — an exception escaping ``execute`` is a traceback on the command line (non-zero exit without
+    a report)."""
+    valid = next(c for c in fixture_cases(1) if c[0] == "valid" and c[2] == "jsonschema")
+    _, model, target, snippets = valid
+    k = 0
+    for arg in ("output_dir", "snippets_dir", "model_path"):
+        for kind in ARGUMENT_KINDS:
+            if arg == "model_path" and kind == "fifo":
+                continue  # reading a FIFO without a writer blocks: not an argument error
+            k += 1
+            base = scratch / f"args_{k}"
+            base.mkdir()
+            try:
+                path = _make_path(base, kind)
+            except OSError:
+                ctx.hit("arguments:kind-unavailable=" + kind)
+                continue
+            locked = base / "locked"
+            if kind == "unsearchable-parent":
+                os.chmod(locked, 0)
+            args = {"model_path": model, "snippets_dir": snippets, "output_dir": base / "out_ok"}
+            args[arg] = path
+            try:
+                res = run_cli(args["model_path"], target, args["snippets_dir"], args["output_dir"], scratch)  # type: ignore
+            finally:
+                if kind == "unsearchable-parent":
+                    os.chmod(locked, 0o700)
+            ctx.count(("arguments", arg, kind), nontrivial=True, stream="cli-arguments")
+            ctx.hit(f"arguments:{arg}:{kind}:rc={res['rc']}" if res["exc"] is None else f"arguments:{arg}:{kind}:{res['exc']}")
+            inp = {"kind": "arguments", "argument": arg, "path_kind": kind, "target": target}
+            if res["exc"] is not None:
+                if kind == "unsearchable-parent" and os.geteuid() == 0:
+                    pass  # root is not stopped by permissions; whatever happens is not about the arguments
+                ctx.fail(inp, f"--{arg} pointing at a {kind}: execute raised {res['exc']} (a traceback instead of a report)", f"C03:arguments:crash:{arg}")
+            for sig, what in judge(res):
+                ctx.fail(inp, what, sig + ":arguments")
+            shutil.rmtree(base, ignore_errors=True)
+
+
 def subprocess_stream(ctx: Ctx, scratch: pathlib.Path) -> None:
     """The real process exit status: `python -m aas_core_codegen` and the console-script entry point."""
     import subprocess
@@ -795,12 +976,14 @@ def oracle(ctx: Ctx) -> None:
             shutil.rmtree(out, ignore_errors=True)
     ctx.extra_cov["cli_runs"] = kinds
     pair_stream(ctx, scratch)
+    front_end_error_stream(ctx, scratch)
     generator_error_stream(ctx, scratch)
     for c in corpus(ID):
         if c.get("kind") == "generator-error" and "missing" in c:
             # a witness of the missing-snippet sub-stream: this target without this snippet
             generator_error_stream(ctx, scratch, only=("missing-snippet", c["target"], c["missing"]), models=[("missing-snippet", c["model"])])
     history_stream(ctx, scratch)
+    argument_stream(ctx, scratch)
     subprocess_stream(ctx, scratch)
 
 
@@ -812,6 +995,21 @@ def replay(ctx: Ctx, data: Dict[str, Any]) -> Any:
         if ctx.driver_ok:
             res["model"] = ctx.model([f"write {enc_text(inp['message'])} {enc_list(inp['errors'])}"])[0]
         return res
+    if inp.get("kind") == "arguments":
+        valid = next(c for c in fixture_cases(1) if c[0] == "valid" and c[2] == "jsonschema")
+        base = scratch / "args_replay"
+        base.mkdir()
+        path = _make_path(base, inp["path_kind"])
+        args = {"model_path": valid[1], "snippets_dir": valid[3], "output_dir": base / "out_ok"}
+        args[inp["argument"]] = path
+        res = run_cli(args["model_path"], valid[2], args["snippets_dir"], args["output_dir"], scratch)  # type: ignore
+        return {"rc": res["rc"], "stderr": res["stderr"], "exc": res["exc"], "oracle": judge(res)}
+    if inp.get("kind") == "front-end-errors":
+        sn = REPO / "dev/test_data/main/jsonschema/expected/primitive_types/input/snippets"
+        mp = scratch / "fe_replay.py"
+        mp.write_text(inp["model"])
+        res = run_cli(mp, "jsonschema", sn, scratch / "fe_replay_out", scratch, spy=True)
+        return {"rc": res["rc"], "stderr": res["stderr"], "exc": res["exc"], "oracle": judge(res), "unreported": unreported_front_end_errors(res)}
     if inp.get("kind") == "generator-error":
         # exactly the recorded model (whether or not it still is a part of the enumerated stream)
         only = (inp["name"], inp["target"]) + ((inp["missing"],) if "missing" in inp else ())
